@@ -31,6 +31,13 @@ def histories(tier):
            ("wb", [25, 29], [0, 1], 3), ("close",)]
     for mode in modes:
         out.append((dict(rf.Cfg(n=n, d=d, fc=fc, sc=sc, start=k0, **U.MODES[mode])), big, "%s calls_within_big_files" % mode))
+    # data files larger than HDF5's 64 KiB sieve buffer: the library performs file I/O inside the write
+    # call itself (allocation + fill of a continuous file, chunk eviction), not only when the file is closed
+    n, d, fc, sc = 100000, 1, 400, 2
+    k0 = rf.first_sample_of_ms(1394368230000 // 2000 * 2000, n, d) + 5000
+    large = [("open", {}), ("w", 0, 30000), ("w", 30000, 30000), ("w", 70000, 20000), ("w", 95000, 1000), ("close",)]
+    for mode in ("cont", "gapped"):
+        out.append((dict(rf.Cfg(n=n, d=d, fc=fc, sc=sc, start=k0, **U.MODES[mode])), large, "%s large_files_io_inside_write" % mode))
     return out
 
 
